@@ -308,7 +308,7 @@ pub fn run(ctx: &Ctx) -> i32 {
         property: "C20",
         tier,
         seed: ctx.seed,
-        scenarios: tier.pick(64, 1_500),
+        scenarios: tier.pick(256, 3_000),
         threads: 4,
         watchdog: Duration::from_secs(300),
         budget: Duration::from_secs(tier.pick(90, 900)),
